@@ -35,15 +35,26 @@ try:
         m = re.search(r"((?:pkg|cmd|internal)/[\w/.-]*?)/?%s" % re.escape(f), runmd) or re.search(r"cp [^\n]*?((?:pkg|cmd)/[\w/.-]+)/?\s*$", runmd, re.M)
         shutil.copy(os.path.join(demo, f), os.path.join(wt, m.group(1).rstrip("/"), f))
     pk = " ".join("./" + t + "/" for t in sorted(targets))
-    r0 = run("go test -vet=off -count=1 %s 2>&1 | tail -15" % pk)
-    res["demo_without_patch"] = "PASS" if re.search(r"^ok\s", r0.stdout, re.M) and "FAIL" not in r0.stdout else "FAIL"
+    is_main = not any(f.endswith("_test.go") for f in tests)
+    if is_main:
+        # the demonstration is a small main program: judged by its exit code
+        democmd = "(" + " && ".join("go run ./%s" % t for t in sorted(targets)) + ") > /tmp/confirm/%s.out 2>&1; echo exit=$?; tail -c 1500 /tmp/confirm/%s.out" % (mid, mid)
+        r0 = run(democmd)
+        res["demo_without_patch"] = "PASS" if "exit=0" in r0.stdout else "FAIL"
+    else:
+        r0 = run("go test -vet=off -count=1 %s 2>&1 | tail -15" % pk)
+        res["demo_without_patch"] = "PASS" if re.search(r"^ok\s", r0.stdout, re.M) and "FAIL" not in r0.stdout else "FAIL"
     res["out_without"] = r0.stdout[-600:]
     ra = run("git apply %s" % os.path.join(mdir, "patch.diff"))
     res["patch_applies"] = ra.returncode == 0
     rb = run("go build ./pkg/... ./cmd/bb_scheduler ./cmd/bb_worker 2>&1 | tail -5")
     res["builds_with_patch"] = rb.stdout.strip() == ""
-    r1 = run("go test -vet=off -count=1 %s 2>&1 | tail -25" % pk)
-    res["demo_with_patch"] = "FAIL" if "FAIL" in r1.stdout else "PASS"
+    if is_main:
+        r1 = run(democmd)
+        res["demo_with_patch"] = "PASS" if "exit=0" in r1.stdout else "FAIL"
+    else:
+        r1 = run("go test -vet=off -count=1 %s 2>&1 | tail -25" % pk)
+        res["demo_with_patch"] = "FAIL" if "FAIL" in r1.stdout else "PASS"
     res["out_with"] = r1.stdout[-900:]
     rt = run("go test -vet=off -count=1 ./pkg/filesystem/access/... ./pkg/scheduler/invocation/... ./pkg/scheduler/platform/... 2>&1 | tail -5")
     res["baseline_tests_with_patch"] = "ok" if rt.stdout.count("ok ") >= 3 and "FAIL" not in rt.stdout else rt.stdout[-300:]
